@@ -226,6 +226,18 @@ fn float_renderings(x: f64) -> Vec<String> {
             v.push(format!("{}e+{}", &e[..p], &e[p + 1..]));
         }
     }
+    // leading-dot mantissa with an exponent: d.ddde±N == .ddddeN+1 (kept only if it parses back to x, checked below)
+    if let Some(p) = e.find('e') {
+        let (m, ex) = (&e[..p], &e[p + 1..]);
+        if let Ok(n) = ex.parse::<i32>() {
+            let digits: String = m.chars().filter(|c| *c != '.').collect();
+            for form in [format!(".{}e{}", digits, n + 1), format!(".{}E{}", digits, n + 1), format!(".{}e{:+}", digits, n + 1), format!("0.{}e{}", digits, n + 1)] {
+                if form.parse::<f64>().map(|p| p.to_bits()) == Ok(x.to_bits()) {
+                    v.push(form);
+                }
+            }
+        }
+    }
     // positional notation where it stays short
     if x == 0.0 || (x >= 1e-5 && x < 1e20) {
         let pos = format!("{}", x);
